@@ -297,6 +297,8 @@ struct Case {
     csr: bool,
     /// run with `u64` vertex weights (known-finding stream, off unless enabled)
     unsigned: bool,
+    /// run with `f64` vertex weights `vw[i] * fscale` (checked on outputs only, no replay)
+    fscale: Option<f64>,
 }
 
 fn gen_graph(r: &mut Rng) -> (String, AdjGraph) {
@@ -457,7 +459,7 @@ fn gen_case(r: &mut Rng) -> Case {
         _ => Policy::Bursts,
     };
     let csr = g.is_csr() && r.chance(1, 2);
-    Case { family, g, vw, p0, threads, mi, policy, sseed: r.next(), csr, unsigned: false }
+    Case { family, g, vw, p0, threads, mi, policy, sseed: r.next(), csr, unsigned: false, fscale: None }
 }
 
 /// A small two- or three-worker input on which the uninterrupted schedule moves vertices:
@@ -502,6 +504,7 @@ fn gen_sweep_base(seed: u64) -> (Case, usize) {
             sseed: 1,
             csr: false,
             unsigned: false,
+            fscale: None,
         };
         let o = run_case(&c);
         let good = matches!(&o.res, Guarded::Done((_, md)) if md.move_count > 0) && o.choices <= 140;
@@ -550,9 +553,13 @@ fn run_case(c: &Case) -> Outcome {
         std::thread::spawn(move || controller(sh))
     };
     let (g, vw, p0, mi, csr, unsigned) = (c.g.clone(), c.vw.clone(), c.p0.clone(), c.mi, c.csr, c.unsigned);
+    let fscale = c.fscale;
     let res = guarded(c.threads, Duration::from_secs(30), move || {
         let mut p = p0;
-        let md = if unsigned {
+        let md = if let Some(f) = fscale {
+            let fw: Vec<f64> = vw.iter().map(|x| *x as f64 * f).collect();
+            coupe::ArcSwap { max_imbalance: mi }.partition(&mut p, (&g, &fw[..])).unwrap()
+        } else if unsigned {
             let uw: Vec<u64> = vw.iter().map(|x| *x as u64).collect();
             coupe::ArcSwap { max_imbalance: mi }.partition(&mut p, (&g, &uw[..])).unwrap()
         } else if csr {
@@ -683,6 +690,7 @@ fn main() {
                 sseed: 1,
                 csr: false,
                 unsigned: false,
+                fscale: None,
             }
         } else {
             let mut c = gen_case(&mut r);
@@ -695,6 +703,11 @@ fn main() {
                     c.mi = Some(8.0);
                 }
                 c.family = format!("unsigned2_{}", c.family);
+            } else if idx % 10 == 7 {
+                // f64 weights (the library's own tests use them): non-representable fractions
+                c.fscale = Some(*r.pick(&[0.1, 0.3, 1.0 / 3.0, 1e-3, 2.5]));
+                c.csr = false;
+                c.family = format!("f64_{}", c.family);
             } else if unsigned_stream && idx % 20 == 19 {
                 // known-finding stream: unsigned weights, a tight cap, an unbalanced input
                 c.unsigned = true;
@@ -793,7 +806,7 @@ fn main() {
         };
         let tr: Vec<u64> = if matches!(o.res, Guarded::Hang) { vec![] } else { o.trace.iter().map(enc).collect() };
         let coq = format!(
-            "mk05 {} {} {} {} {} {} {} {}",
+            "mk05 {} {} {} {} {} {} {} {} {}",
             coq_rows(&c.g),
             coq_zlist(c.vw.iter().map(|x| *x as i128)),
             coq_natlist(c.p0.iter().cloned()),
@@ -801,11 +814,18 @@ fn main() {
             mi_coq,
             coq_nlist(tr.iter().map(|x| *x as u128)),
             impl_coq,
-            md_coq
+            md_coq,
+            if c.fscale.is_some() { "1%N" } else { "0%N" }
         );
         let json = format!(
             "{{{}\"n\":{},\"rows\":{},\"vertex_weights\":{},\"p0\":{},\"threads\":{},\"max_imbalance\":{},\"topology\":\"{}\",\"policy\":\"{:?}\",\"schedule_seed\":{},\"passes\":{},\"choices\":{},\"events\":{},\"trace_enc\":{},\"impl\":{}}}",
-            if c.unsigned { format!("\"kf\":\"{}\",\"weight_type\":\"u64\",", KF_UNSIGNED) } else { "\"weight_type\":\"i64\",".to_string() },
+            if c.unsigned {
+                format!("\"kf\":\"{}\",\"weight_type\":\"u64\",", KF_UNSIGNED)
+            } else if let Some(f) = c.fscale {
+                format!("\"weight_type\":\"f64\",\"weight_scale\":{},", f)
+            } else {
+                "\"weight_type\":\"i64\",".to_string()
+            },
             n,
             json_rows(&c.g),
             json_i64s(&c.vw),
@@ -825,7 +845,7 @@ fn main() {
             impl_json
         );
         // distinct by (graph, weights, partition, pool size, cap, recorded schedule)
-        let key = format!("{:?}|{:?}|{:?}|{}|{:?}|{:?}", c.g.rows, c.vw, c.p0, c.threads, c.mi.map(|x| x.to_bits()), tr);
+        let key = format!("{:?}|{:?}|{:?}|{}|{:?}|{:?}|{:?}", c.g.rows, c.vw, c.p0, c.threads, c.mi.map(|x| x.to_bits()), tr, c.fscale.map(|x| x.to_bits()));
         // non-trivial: at least two workers and at least one vertex moved
         let nontrivial = match &o.res {
             Guarded::Done((_, md)) => md.move_count > 0 && work_share(n, c.threads).1 >= 2,
